@@ -26,4 +26,8 @@ PROPS = {
 #: the quick tier by the differential runs (specs/ciphers.py) and by the cheaper contracts of the same module.
 QUICK_SKIP = {
     'CHACHA20_POLY1305.seal', 'ccm_8-open-seal', 'chacha20poly1305-open-seal', 'AESCCM._cbcmac_calc', 'CHACHA20_POLY1305.open',
+    # CertificateRequest with three DistinguishedNames: solver time varies between 15 s and several minutes from run to run
+    # (the 0-2 CA scenarios and the any-number-of-CAs _parse_tls12 contract stay in the quick tier)
+    'layout-CertificateRequest-tls12-3CA', 'parse-CertificateRequest-tls12-3CA', 'ca-length-mismatch-CertificateRequest-tls12-3CA',
+    'layout-CertificateRequest-tls10-11-3CA', 'parse-CertificateRequest-tls10-11-3CA', 'ca-length-mismatch-CertificateRequest-tls10-11-3CA',
 }
